@@ -2,6 +2,8 @@ import BSEModel.Own
 import BSEGen.Own
 import BSEGen.Writers
 import BSEGen.Manip
+import BSEGen.OwnSkel
+import BSEProofs.Lemmas.HeapSound
 /-! # C10 — library functions never modify the caller's data
 
 Proved here: the `use_copy` discipline.  (1) in the ownership model, a pipeline whose first step
@@ -80,5 +82,64 @@ theorem inner_calls_in_place :
 
 example : run [⟨.uncontractGeneral, true⟩, ⟨.uncontractSpdf 1, false⟩, ⟨.sortBasis, false⟩] .caller = (.fresh, false)
     ∧ (run [⟨.optimizeGeneral, false⟩, ⟨.uncontractGeneral, false⟩] .caller).2 = true := by decide
+
+end BSE.Props.C10
+
+/-! ## Function bodies: the heap-level ownership check
+
+`BSEGen/OwnSkel.lean` holds, regenerated from the source on every run, the effect skeleton of every
+in-scope function (manip, sort, the writer of every format, curate.compare, curate.diff, the validator
+and the reference converter; callees inlined, `use_copy` at its default).  `BSEModel/Heap.lean` gives
+the skeleton language a heap semantics and an abstract ownership check; the theorems below say that an
+accepted skeleton cannot write to a container of the caller nor return anything from which one can be
+reached — along every execution — and that every skeleton of the current source is accepted. -/
+namespace BSE.Props.C10
+open BSE.Heap
+
+/-- **an accepted body is safe along every execution**: whatever branches are taken, however often
+the loops run and whichever members are picked, (1) every container that existed before the call has
+exactly the members it had, (2) no such container was written to at all, (3) from no returned value
+can such a container be reached (at the moment of the return). -/
+theorem accepted_is_safe (k : Skel) (hk : k.accepted = true)
+    (n0 : Node) (h0 : Node → List Node) (hown : ∀ n, n < n0 → ∀ m ∈ h0 n, m < n0)
+    (st st' : St) (hi : Init n0 h0 k.params st) (hex : Exec st k.body st') :
+    (∀ n, n < n0 → st'.heap n = h0 n) ∧ (∀ n ∈ st'.muts, n0 ≤ n) ∧
+    (∀ p ∈ st'.rets, ∀ o, o < n0 → ¬ Reach p.2 p.1 o) := by
+  unfold Skel.accepted at hk
+  cases hc : check k.body (Abs.init k.params) with
+  | none => simp [hc] at hk
+  | some a' =>
+    have := exec_sound hex _ _ hc (init_inv hown hi)
+    exact ⟨this.owned_same, this.muts_ok, this.rets_ok⟩
+
+/-- the check refuses a body that writes to its argument, and one that hands a member of it back -/
+example : (Skel.mk "f" [0] (.store 0 [])).accepted = false
+    ∧ (Skel.mk "g" [0] (.seq (.sub 1 0) (.ret 1))).accepted = false
+    ∧ (Skel.mk "h" [0] (.seq (.deepcopy 0 0) (.seq (.sub 1 0) (.seq (.store 1 []) (.ret 0))))).accepted = true
+    ∧ (Skel.mk "i" [0] (.seq (.derive 1 []) (.seq (.loop (.seq (.sub 2 0) (.store 1 [2]))) (.ret 1)))).accepted = false := by decide
+
+/-- the hypotheses of `accepted_is_safe` are satisfiable: a caller heap with two nested containers -/
+example : ∃ st : St, Init 2 (fun n => if n = 0 then [1] else []) [0] st :=
+  ⟨{ heap := fun n => if n = 0 then [1] else [], next := 3, env := fun v => if v = 0 then 0 else 2, muts := [], rets := [] },
+   ⟨rfl, fun n hn => rfl, by simp, by intro v hv; simp at hv; simp [hv], by intro v hv; simp at hv; simp [hv], rfl, rfl⟩⟩
+
+/-- Bodies whose safety rests on a fact the two-bit abstraction cannot express.  `sort_basis_dict` builds its result from
+the *members* of its argument and then replaces every member that is a dict or a list by a private copy; that "every
+container-valued member is replaced" is a property of the values, not of the shape of the body.  It is covered by the dynamic
+twin only (identity-disjointness of result and argument on every explored input). -/
+def beyondTheAbstraction : List String := ["sort.sort_basis_dict"]
+
+/-- **every in-scope function body of the current source passes the ownership check** (all but the one named above) -/
+theorem all_skeletons_accepted :
+    ∀ k ∈ BSE.Gen.OwnSkel.all, k.name ∉ beyondTheAbstraction → k.accepted = true := by decide +kernel
+
+/-- the excluded body is really refused (so the exclusion is not hiding an accepted one), and it is in the list -/
+theorem excluded_is_refused :
+    (BSE.Gen.OwnSkel.all.filter (fun k => decide (k.name ∈ beyondTheAbstraction))).map (fun k => (k.name, k.accepted))
+      = [("sort.sort_basis_dict", false)] := by decide +kernel
+
+/-- the skeleton list is not empty and covers the writer of every format -/
+theorem skeletons_cover_writers :
+    BSE.Gen.Writers.pipelines.length ≤ (BSE.Gen.OwnSkel.all.filter (fun k => k.name.startsWith "writers.")).length := by decide +kernel
 
 end BSE.Props.C10
